@@ -19,6 +19,8 @@ impl LocalKey {
         use digest::Mac;
 
         let (ek, n2) = kdf(&self.0, 0x80, nonce).split();
+        #[cfg(paseto_rs_verif)]
+        let n2 = generic_array::GenericArray::from(paseto_core::verif::iv(n2.into()));
         let ak = kdf(&self.0, 0x81, nonce);
 
         let cipher = ctr::Ctr128BE::<aes::Aes256>::new(&ek, &n2);
